@@ -1,6 +1,7 @@
-(* C09 — proofs about the TS writer model and the independent demultiplexer *)
-From Coq Require Import ZArith List Bool Lia.
-From V Require Import Bytes BytesLemmas C09Adts C09TsFrame C09TsWriter C09TsDemux.
+(* C09 — the theorems of DESIGN §6 C09, assembled from the packet / stream / mux proofs *)
+From Coq Require Import ZArith List Bool Lia ZifyBool.
+From V Require Import Bytes BytesLemmas C09Adts C09TsFrame C09TsWriter C09TsDemux
+  C09BitLemmas C09CodecProofs C09PacketProofs C09StreamProofs C09FrameProofs C09MuxProofs.
 Import ListNotations.
 Open Scope Z_scope.
 
@@ -11,3 +12,98 @@ Lemma ts_psi_holds :
   | _ => False
   end.
 Proof. vm_compute. reflexivity. Qed.
+
+Lemma zlen_concat_188 (l : list bytes) : Forall len188p l -> zlen (concat l) = 188 * Z.of_nat (length l).
+Proof.
+  induction 1 as [| p l Hp Hl IH]; [reflexivity |].
+  cbn [concat length]. rewrite zlen_app, IH. unfold len188p in Hp. lia.
+Qed.
+
+Theorem ts_packets_wellformed fs : wf_frames fs = true ->
+  zlen (ts_write_all fs) mod 188 = 0 /\
+  exists ks, ts_parse (ts_write_all fs) = Some ks /\ Forall2 pkt_wf (ts_stream_packets fs) ks.
+Proof.
+  intros Hwf. destruct (ts_stream_spec fs Hwf) as (ks & us & Hparse & Hall & _ & _).
+  split.
+  - unfold ts_write_all. rewrite (zlen_concat_188 _ Hall).
+    rewrite Z.mul_comm. apply Z.mod_mul. lia.
+  - exists (kpat :: kpmt :: ks). split; [exact Hparse |].
+    apply parse_packets_wf. unfold ts_parse, ts_write_all in Hparse.
+    rewrite (chunks188_concat _ Hall) in Hparse by apply le_n. exact Hparse.
+Qed.
+
+Theorem ts_cc fs : wf_frames fs = true ->
+  exists ks, ts_parse (ts_write_all fs) = Some ks /\ cc_continuous ks.
+Proof.
+  intros Hwf. destruct (ts_stream_spec fs Hwf) as (ks & us & Hparse & _ & Hu & _).
+  exists (kpat :: kpmt :: ks). split; [exact Hparse |].
+  unfold ts_units in Hu. rewrite Hparse in Hu. eapply demux_cc_continuous. exact Hu.
+Qed.
+
+Lemma conts_ok_forall pid cc ks : conts_ok pid cc ks ->
+  Forall (fun k => k_pusi k = false /\ k_pid k = pid) ks.
+Proof.
+  revert cc. induction ks as [| k ks IH]; intros cc H; [constructor |].
+  destruct H as (H1 & H2 & _ & H4). constructor; [auto | eapply IH; exact H4].
+Qed.
+
+(* one frame, every header/payload length and flag combination *)
+Theorem ts_pes_roundtrip cc f : 0 <= f_pid f < 8192 -> f_pay f <> [] ->
+  exists k0 ks,
+    parse_packets (fst (ts_frame_packets cc f)) = Some (k0 :: ks) /\
+    k_pusi k0 = true /\ k_pid k0 = f_pid f /\
+    Forall (fun k => k_pusi k = false /\ k_pid k = f_pid f) ks /\
+    k_rai k0 = f_key f /\
+    k_pcr k0 = (if f_key f then Some (f_dts f mod M33) else None) /\
+    parse_pes (concat (map k_payload (k0 :: ks))) =
+      Some {| p_sid := f_sid f mod 256; p_pts := f_pts f mod M33;
+              p_dts := if f_dts f =? f_pts f then None else Some (f_dts f mod M33);
+              p_payload := f_hdr f ++ f_pay f |}.
+Proof.
+  intros Hp Hpay.
+  destruct (ts_frame_spec cc f Hp Hpay) as (k0 & ks & H1 & _ & H3 & H4 & _ & H6 & H7 & H8 & H9 & _).
+  exists k0, ks.
+  split; [exact H1 |]. split; [exact H3 |]. split; [exact H4 |].
+  split; [eapply conts_ok_forall; exact H8 |].
+  split; [exact H6 |]. split; [exact H7 |].
+  rewrite H9. apply parse_pes_hdr.
+Qed.
+
+(* the whole stream: PAT, PMT, then one payload unit per written frame, in order *)
+Theorem ts_stream_roundtrip fs : wf_frames fs = true ->
+  exists pat pmt us,
+    ts_units (ts_write_all fs) = Some (pat :: pmt :: us) /\ psi_ok pat pmt = true /\
+    units_ok unit_ok (filter has_payload fs) us = true.
+Proof.
+  intros Hwf. destruct (ts_stream_spec fs Hwf) as (ks & us & _ & _ & Hu & Hok).
+  exists upat, upmt, us. split; [exact Hu |]. split; [exact psi_units_ok | exact Hok].
+Qed.
+
+(* what unit_ok says, in the property's words *)
+Lemma unit_ok_meaning f u : unit_ok f u = true ->
+  u_pid u = f_pid f /\ u_rai u = f_key f /\
+  (f_key f = true -> u_pcr u = Some (f_dts f mod M33)) /\
+  exists p, parse_pes (u_data u) = Some p /\
+    p_sid p = f_sid f mod 256 /\ p_pts p = f_pts f mod M33 /\
+    p_dts p = (if f_dts f =? f_pts f then None else Some (f_dts f mod M33)) /\
+    p_payload p = f_hdr f ++ f_pay f.
+Proof.
+  unfold unit_ok, unit_flags_ok, pes_stamps_ok. intros H.
+  apply andb_true_iff in H. destruct H as (Hfl & H).
+  apply andb_true_iff in Hfl. destruct Hfl as (Hfl & Hpcr).
+  apply andb_true_iff in Hfl. destruct Hfl as (Hpid & Hrai).
+  apply Z.eqb_eq in Hpid. apply Bool.eqb_prop in Hrai.
+  split; [exact Hpid |]. split; [exact Hrai |].
+  split.
+  { intros Hk. rewrite Hk in Hpcr. destruct (u_pcr u) as [x |]; [| discriminate].
+    cbn in Hpcr. apply Z.eqb_eq in Hpcr. subst x. reflexivity. }
+  destruct (parse_pes (u_data u)) as [p |]; [| discriminate].
+  exists p. split; [reflexivity |].
+  apply andb_true_iff in H. destruct H as (Hst & Hb).
+  apply andb_true_iff in Hst. destruct Hst as (Hst & Hdts).
+  apply andb_true_iff in Hst. destruct Hst as (Hsid & Hpts).
+  apply Z.eqb_eq in Hsid. apply Z.eqb_eq in Hpts. apply bytes_eqb_eq in Hb.
+  repeat split; auto.
+  destruct (p_dts p) as [x |], (f_dts f =? f_pts f); cbn in Hdts; try discriminate; auto.
+  apply Z.eqb_eq in Hdts. subst x. reflexivity.
+Qed.
